@@ -272,7 +272,7 @@ class Check:
     def finish(self, search=None) -> int:
         """Apply the verdict protocol. `search` is called (and must populate self.failing via
         failing_input) when an obligation is broken and no failing input has been found yet."""
-        if self.broken and not self.failing and search is not None:
+        if self.broken and search is not None and not [f for f in self.failing if self.match_known(f) is None]:
             self.log("obligation broken -> searching the implementation for a failing input")
             try:
                 search()
